@@ -1080,9 +1080,22 @@ func (s *Server) RemoteSync(
 	}
 	s.Mach.Add1(ssS.MetricSync, nil)
 
+	// same layout as in RemoteHello: tracked states only
+	mTime := s.Source.Time(nil)
+	if !s.syncSchema {
+		mTime = mTime.Filter(s.tracer.trackedStateIdxs)
+	} else {
+		for i := range mTime {
+			if !slices.Contains(s.tracer.trackedStateIdxs, i) {
+				mTime[i] = 0
+			}
+		}
+	}
+
 	*resp = MsgSrvSync{
-		Time:      s.Source.Time(nil),
+		Time:      mTime,
 		QueueTick: s.Source.QueueTick(),
+		MachTick:  s.Source.MachineTick(),
 	}
 	s.log("RemoteSync: [%v]", resp.Time)
 
